@@ -377,7 +377,10 @@ def publickey_request(session_id, user, service, keykind, algorithm, sigvar):
         out = Message()
         out.add_string(name)
         if sigvar == "malformed-short":
-            out.add_string(blob[:-1])
+            # paramiko's Message zero-pads short reads, so "valid blob minus a final 0x00 byte" would decode to
+            # the valid signature again (ECDSA signatures are randomised: 1 execution in 256).  Damage the byte
+            # before the cut as well, so that the variant is invalid in every execution.
+            out.add_string(blob[:-2] + bytes([blob[-2] ^ 0x01]))
         elif sigvar == "malformed-empty":
             out.add_string(b"")
         elif sigvar == "malformed-ones":
